@@ -1,32 +1,28 @@
 #!/bin/bash
 # tools/try_seed.sh <seed-dir (contains patch.diff, demo.py, meta.json)> <PID> [--confirm] [extra PIDs...]
-# Applies the seeded change to /repo, runs the quick check(s), reverts.  With --confirm also
-# re-validates the seed in a scratch worktree (tests pass; demo fails with / passes without).
+# Applies the seeded change to a scratch worktree of /repo HEAD (never to /repo itself), runs the
+# quick check(s) against it (DASHLIVE_REPO), removes the worktree.  With --confirm also
+# re-validates the seed there (tests pass; demo fails with / passes without the change).
 set -u
-SEED="$1"; PID="$2"; shift 2
+SEED="$(realpath "$1")"; PID="$2"; shift 2
 CONFIRM=0; EXTRA=()
 for a in "$@"; do if [ "$a" = "--confirm" ]; then CONFIRM=1; else EXTRA+=("$a"); fi; done
-cd /repo || exit 2
-if [ -n "$(git status --porcelain)" ]; then echo "/repo not clean"; exit 2; fi
+WT=/tmp/seedchk.$$
+git -C /repo worktree add -q --detach $WT HEAD || exit 2
+cleanup() { git -C /repo worktree remove --force $WT 2>/dev/null; git -C /repo worktree prune; }
+trap cleanup EXIT INT TERM PIPE
 if [ $CONFIRM = 1 ]; then
-  WT=/tmp/seedchk.$$; git worktree add -q --detach $WT HEAD
   mkdir -p $WT/_seed && cp "$SEED/demo.py" $WT/_seed/demo.py   # demos locate the tree relative to their own path
   ( cd $WT && PYTHONPATH=$WT /venv/bin/python _seed/demo.py >/dev/null 2>&1; echo "demo without change: exit $?" )
-  ( cd $WT && git apply "$SEED/patch.diff" && PYTHONPATH=$WT /venv/bin/python _seed/demo.py >/dev/null 2>&1; echo "demo with change: exit $?" )
-  ( cd $WT && /venv/bin/python -m pytest -q -p no:cacheprovider --timeout=900 --continue-on-collection-errors 2>&1 | tail -1 )
-  git worktree remove --force $WT
 fi
-EVBAK=$(mktemp -d); cp -a /verif/evidence/. $EVBAK/
-cleanup() {
-  git -C /repo checkout -- . 2>/dev/null
-  # evidence files must describe runs on the unchanged tree: restore them
-  [ -d "$EVBAK" ] && cp -a $EVBAK/. /verif/evidence/ && rm -rf $EVBAK
-}
-trap cleanup EXIT INT TERM PIPE
-git apply "$SEED/patch.diff" || { echo "patch does not apply"; exit 2; }
+( cd $WT && git apply "$SEED/patch.diff" ) || { echo "patch does not apply"; exit 2; }
+if [ $CONFIRM = 1 ]; then
+  ( cd $WT && PYTHONPATH=$WT /venv/bin/python _seed/demo.py >/dev/null 2>&1; echo "demo with change: exit $?" )
+  ( cd $WT && /venv/bin/python -m pytest -q -p no:cacheprovider --timeout=900 --continue-on-collection-errors 2>&1 | tail -1 )
+  rm -rf $WT/_seed
+fi
 cd /verif
 for p in "$PID" "${EXTRA[@]}"; do
-  out=$(./vf check "$p" --tier quick 2>&1); rc=$?
+  out=$(DASHLIVE_REPO=$WT ./vf check "$p" --tier quick 2>&1); rc=$?
   echo "== $p exit=$rc"; echo "$out" | grep -E "VIOLATION|violated|INCONCLUSIVE|MACHINERY|KNOWN" | cut -c1-400 | head -8
 done
-cleanup; trap - EXIT
